@@ -79,6 +79,21 @@ def build_jobs(tier, seed, stats, want_ops=True):
             di = b.doc(d)
             for st in small_scope_steps(sch, js, rd, cuts, rng, per_doc):
                 steps.ev_apply(b, rd, di, st, tag="enum")
+        if sname == "s1":
+            # shaped documents beyond the token bound: textblocks that allow marks next to one that forbids them
+            # (a raw mark step, e.g. one rebased over a concurrent insertion, may cover several blocks), all steps
+            tx = lambda c, *ms: sch.text(c, [sch.marks[m].create() for m in ms])        # noqa: E731
+            P = lambda *kids: sch.node("p", None, list(kids))                               # noqa: E731
+            CB = lambda *kids: sch.node("cb", None, list(kids))                             # noqa: E731
+            shaped = [sch.node("doc", None, ks) for ks in (
+                [P(tx("a")), CB(tx("b"))], [P(tx("a")), CB(tx("b")), P(tx("c"))], [CB(tx("a")), P(tx("b"))],
+                [sch.node("bq", None, [P(tx("a")), CB(tx("b"))]), P(tx("c", "em"))],
+                [sch.node("h", {"level": 1}, [tx("a")]), CB(), P(tx("b"))])]
+            for rd in shaped:
+                d = proj.proj(rd)
+                di = b.doc(d)
+                for st in small_scope_steps(sch, js, rd, cuts, rng, 100000):
+                    steps.ev_apply(b, rd, di, st, tag="shaped")
         stats.bounds[f"docs_{sname}"] = len(docs)
         jobs.append((b, f"G+T enum[{sname}]"))
     # ---- random: bundled schemas and variants
